@@ -60,7 +60,21 @@ TOp ==
           /\ Becomes(post)
           /\ last' = [k |-> m.k, s |-> m.s, d |-> DenomOf(m), x |-> m.x, y |-> m.y, ok |-> Ev.ok, dirty |-> Ev.changed]
 
-TraceNext == /\ (TReset \/ TOp)
+\* the chain was restarted from an export of its state (ExportGenesis -> InitGenesis of a fresh application):
+\* every record and balance the specification speaks of is as before
+\* (the module's genesis has no field for the before-send hook of a denomination: the current code loses every
+\* hook at this point.  That is state lost by export/import - C19's subject, noted there in DESIGN.md -, not an
+\* authorisation matter: the hooks are re-based on what the importer holds and the line is noted.)
+TReimport ==
+    /\ IsEv("reimport")
+    /\ LET post == FromLog(Ev.st) IN
+       /\ Chk("projection-well-formed", NoDup(Ev.st))
+       /\ Chk("state survives export and import", [post EXCEPT !.hook = St.hook] = St)
+       /\ (post.hook # St.hook => PrintT(<<"NOTE", "before-send hooks lost by export/import", l + 1>>))
+       /\ Becomes(post)
+       /\ last' = Last0
+
+TraceNext == /\ (TReset \/ TOp \/ TReimport)
              /\ l' = l + 1
 
 TraceSpec == TraceInit /\ [][TraceNext]_<<vars, l>>
